@@ -6,26 +6,26 @@ ids=[p['id'] for p in props]
 IN="engine IN: bounded-exhaustive enumeration of a grammar automaton / fault operators over the real code, judged by an independent reference (decoder, serialiser, HMAC/CRC, attribute codecs)"
 SM="engine SM: explicit-state breadth-first search whose transition function replays the history on a fresh real object in lock-step with a reference model"
 C={
- "C01":("IN","exhaustive enumeration of inputs and single faults; every entry point and read-only operation guarded; watchdog for hangs","panics, overflow traps (overflow-checks on), debug assertions and non-termination on every generated buffer; not: inputs outside the grammar/fault alphabets"),
+ "C01":("IN","exhaustive enumeration of inputs and single faults; every entry point and read-only operation guarded (Display / Debug also into bounded sinks and under format specifications); watchdog for hangs","panics, overflow traps (overflow-checks on), debug assertions and non-termination on every generated buffer; not: inputs outside the grammar/fault alphabets"),
  "C02":("IN","exhaustive skeleton x single-fault enumeration (structural faults, consistent-length cuts, every header/attribute-header byte value, bit flips) and a sweep of all 65536 attribute types around MI/MI256/FP templates vs independent reference decoder (set-valued rejection causes)","reference decoder written from RFC 8489 and the statement; skeleton alphabet (depth 5-6 quick) and single faults"),
- "C03":("IN","exhaustive builder-program enumeration (attribute lists x sealings x headers; every length 0..=763; every 16-bit type code as a raw attribute) vs reference serialiser/decoder/HMAC/CRC","attribute alphabet of 42 entries, list depth 3 (4 thorough)"),
- "C04":("IN","exhaustive fault enumeration: every bit flip and byte value of the covered range of every sealed buffer (fingerprinted messages also with the CRC recomputed), plausible alternative HMAC values, near-miss and decorated keys, key-length sweep 0..=140 bytes around the HMAC block size","HMAC collision resistance; key alphabet"),
- "C05":("SM","explicit-state BFS over agent call histories (all poll orders via the hook) vs reference transaction model; drain from every state, continued black-box after a divergence owned by another property; single-transaction schedules with one intervention (responses of every content, plain and authenticated) at every position; enumerated long histories with 1..=300 concurrent requests","depth/population bounds; time lattice"),
- "C06":("SM","explicit-state BFS + full single-transaction schedule sweep vs schedule arithmetic of the statement; black-box WaitUntil contract; enumerated long histories with 1..=300 concurrent requests under mixed configurations","millisecond granularity; configurations of the alphabet"),
- "C07":("SM","explicit-state BFS with forged/genuine response alphabet and a credential-kinds slice vs reference HMAC delivery rule; forged responses of every content at every position of single-transaction schedules; timing effect of dropped responses isolated by replaying the history without them","response alphabet; depth bound"),
+ "C03":("IN","exhaustive builder-program enumeration (attribute lists x sealings x headers; every length 0..=763; every 16-bit type code as a raw attribute; application-defined attributes of 0..=65000 bytes and with values changed after add_attribute; sibling clones kept alive; after a caught panic elsewhere in the process; under four concurrent long-term users) vs reference serialiser/decoder/HMAC/CRC","attribute alphabet of 42 entries, list depth 3 (4 thorough)"),
+ "C04":("IN","exhaustive fault enumeration: every bit flip and byte value of the covered range of every sealed buffer (fingerprinted messages also with the CRC recomputed), plausible alternative HMAC values, near-miss and decorated keys, key-length sweep 0..=140 bytes around the HMAC block size; controlled single-preemption interleaving of validate / seal / parse under different credentials at every tracing call site of the library (1328 interleavings)","HMAC collision resistance; key alphabet"),
+ "C05":("SM","explicit-state BFS over agent call histories (all poll orders via the hook) vs reference transaction model; drain from every state, continued black-box after a divergence owned by another property; single-transaction schedules with one intervention (responses of every content, plain and authenticated) at every position; enumerated long histories with 1..=300 concurrent requests; responses of every error code 300..=699 x attribute subsets x integrity states","depth/population bounds; time lattice"),
+ "C06":("SM","explicit-state BFS + full single-transaction schedule sweep vs schedule arithmetic of the statement; black-box WaitUntil contract; enumerated long histories with 1..=300 concurrent requests under mixed configurations; configurations that are not whole milliseconds; sub-millisecond phases; requests of every serialised size","millisecond granularity; configurations of the alphabet"),
+ "C07":("SM","explicit-state BFS with forged/genuine response alphabet and a credential-kinds slice vs reference HMAC delivery rule; forged responses of every content at every position of single-transaction schedules; timing effect of dropped responses isolated by replaying the history without them; responses of every error code 300..=699 x attribute subsets x five integrity states x credential kinds","response alphabet; depth bound"),
  "C08":("IN","exhaustive value enumeration per attribute type (short values, lengths 0..=800 x patterns, all 65536 error class/number pairs, byte-lane walks) vs three-valued reference codec","DON'T-CARE regions listed in DESIGN.md"),
  "C09":("IN","exhaustive fault enumeration (all byte substitutions, all bursts <= 32 bits) judged by the reference decoder","CRC as computed by an independent implementation"),
  "C10":("IN","exhaustive enumeration of sealing-attribute orders vs reference exposure rule (iteration, raw and typed lookups, validate_integrity coverage)","sequence depth 7 (8 thorough)"),
- "C11":("SM","explicit-state BFS over builder operation sequences, deduplicated on the builder's complete Debug snapshot, vs reference builder","operation alphabet; depth 7 (9 thorough)"),
- "C12":("IN","exhaustive enumeration of values x destination sizes; all serialisation paths compared bytewise with the reference encoding","value alphabets"),
- "C13":("IN","exhaustive ports / byte-lane walks / lane pairs (all 2^32 IPv4 in thorough) vs RFC 8489 14.2 reference","IPv6/tid beyond lane and lane-pair walks"),
- "C14":("SM","exhaustive enumeration of frame sequences x all chunkings x pull schedules (no dedup: TcpBuffer state is not observable) vs reference framing","frame lengths alphabet; <= 3 frames"),
- "C15":("SM","explicit-state BFS over multi-source histories (and a stays-validated slice over every other API call) vs reference validated-peer set; enumerated long histories with up to 10000 (70000 thorough) distinct peers of five address families","depth bound"),
+ "C11":("SM","explicit-state BFS over builder operation sequences, incl. fork / swap (a sibling clone kept alive and serialised beside the builder), deduplicated on the complete Debug snapshots of builder and sibling, vs reference builder","operation alphabet; depth 7 (9 thorough)"),
+ "C12":("IN","exhaustive enumeration of values x destination sizes; all serialisation paths compared bytewise with the reference encoding; application-defined attributes of every length 0..=1100 and up to 65000 bytes, and with values changed after add_attribute","value alphabets"),
+ "C13":("IN","exhaustive ports / byte-lane walks / lane pairs (all 2^32 IPv4 in thorough) vs RFC 8489 14.2 reference; every other 16-bit attribute type carrying an address-shaped value beside the XOR-MAPPED-ADDRESS","IPv6/tid beyond lane and lane-pair walks"),
+ "C14":("SM","exhaustive enumeration of frame sequences x all chunkings x pull schedules (no dedup: TcpBuffer state is not observable) vs reference framing; every frame length 0..=65535; > 2^32 bytes through one buffer; the process clock (the harness' own clock_gettime) jumping between chunks","frame lengths alphabet; <= 3 frames"),
+ "C15":("SM","explicit-state BFS over multi-source histories (and a stays-validated slice over every other API call) vs reference validated-peer set; enumerated long histories with up to 10000 (70000 thorough) distinct peers of five address families; responses of every error code 300..=699 x attribute subsets x integrity states: validated exactly when delivered","depth bound"),
  "C16":("IN","exhaustive enumeration: request messages x every verdict-relevant supported/required subset (all 2^9 x 2^9 for messages of <= 2 attributes), requests with 1..=400 unknown attributes and the response constructors called directly vs RFC 8489 6.3.1 reference verdict","type universe of 9"),
- "C17":("IN","every well-formed message of the family x every cut point (messages up to 65552 bytes: stated cut-point subset); header decoder on all type fields, all length fields, cookie bits and transaction-id lanes","message family"),
- "C18":("SM","explicit-state BFS; every Transmit (also after into_owned) compared with the harness' own serialisation and addressing; single-transaction schedules with reconfiguration / cancel_retransmissions / foreign traffic at every position; addressing matrix of 21 x 21 local / destination addresses x 4 message kinds; enumerated long histories with 1..=300 concurrent requests","depth bound; two payload shapes"),
- "C19":("IN","fully exhaustive over the 16-bit type field and all (class, method) pairs; boundary transaction ids","generate() is observed, not enumerated"),
- "C20":("SM","differential replay of every explored history on fresh threads: shifted time base (latest first), unchanged afterwards, interleaved unrelated agent, wall-clock bases, hand-over to another thread; exploration after a prelude of unrelated agents with breaches re-run in a pristine child process; single-transaction projections for the leak clause; enumerated long histories replayed three times; non-reproducible replies are violations","depth bound; shifts {1 ms, 1 day, 10^9 ms}; wall clock, -1 h, -1 day"),
+ "C17":("IN","every declared length (all multiples of 4 up to 65532) x cuts below 1100 and where a misread length field leads; every well-formed message of the family x every cut point (messages up to 65552 bytes: stated cut-point subset); header decoder on all type fields, all length fields, cookie bits and transaction-id lanes","message family"),
+ "C18":("SM","explicit-state BFS; every Transmit (also after into_owned) compared with the harness' own serialisation and addressing; single-transaction schedules with reconfiguration / cancel_retransmissions / foreign traffic at every position; addressing matrix of 21 x 21 local / destination addresses x 4 message kinds; enumerated long histories with 1..=300 concurrent requests; requests carrying every 16-bit attribute type, of every method and of every serialised size 24..=2264 bytes","depth bound; two payload shapes"),
+ "C19":("IN","fully exhaustive over the 16-bit type field and all (class, method) pairs (also as headers of messages with attributes, incl. one whose length changes after add_attribute); boundary transaction ids; 2^24 (2^32 thorough) consecutive generate() calls","generate() is observed, not enumerated"),
+ "C20":("SM","differential replay of every explored history on fresh threads: shifted time base (latest first), unchanged afterwards, interleaved unrelated agent, wall-clock bases, hand-over to another thread; exploration after a prelude of unrelated agents with breaches re-run in a pristine child process; single-transaction projections for the leak clause; enumerated long histories replayed five times; the process clock (the harness' own clock_gettime) jumping at every read; every environment variable the library reads (recorded through the harness' own getenv) under an 18-value alphabet; non-reproducible replies are violations","depth bound; shifts {1 ms, 1 day, 10^9 ms}; wall clock, -1 h, -1 day"),
 }
 built=set(open('/verif/.built').read().split()) if __import__('os').path.exists('/verif/.built') else set()
 checks=[];na=[]
